@@ -187,6 +187,8 @@ class RepeatedNodeWrapper(MutableSequence[_M]):
         if isinstance(index, int):
             assert not isinstance(value, Iterable)
             item = self._repeated.items[index]
+            if index < 0:
+                index += len(self._repeated.items)
             self._repeated.token_store.splice(value.detach(), item.first_token, item.last_token)
             value.reattach(self._repeated.token_store)
             self._repeated.items[index] = value
@@ -205,7 +207,7 @@ class RepeatedNodeWrapper(MutableSequence[_M]):
             self._repeated.items[indexes.slice_from_range(r)] = values
             for value in values:
                 value.reattach(self._repeated.token_store)
-            self._notify_splice(r.start, r.stop, values)
+            self._notify_splice(r.start, max(r.start, r.stop), values)
         else:
             if len(r) != len(values):
                 raise ValueError(f'attempt to assign sequence of size {len(values)} to extended slice of size {len(r)}')
